@@ -84,6 +84,10 @@ func main() {
 			if rep.Err != "" {
 				fmt.Println("   ERROR:", rep.Err)
 			}
+			for _, se := range scriptErrors {
+				fmt.Println("   SCRIPT-ERROR:", se)
+			}
+			scriptErrors = nil
 			for _, ob := range rep.Obs {
 				status := "FAIL"
 				if ob.Result != nil {
